@@ -129,6 +129,24 @@ impl Visitor<Diagnostic> for LibraryRenderer {
         self.visit_integer(&node.value)
     }
 
+    fn visit_integer_literal(&mut self, node: &IntegerLiteral) -> Result<Self::Value, Diagnostic> {
+        match &node.data_type {
+            Some(data_type) => {
+                // The type prefix, the sign and the digits are one literal
+                let sign = if node.value.is_neg { "-" } else { "" };
+                let val = format!(
+                    "{}#{}{}",
+                    data_type.as_id().original(),
+                    sign,
+                    node.value.value.value
+                );
+                self.write_ws(val.as_str());
+                Ok(())
+            }
+            None => node.recurse_visit(self),
+        }
+    }
+
     fn visit_real_literal(&mut self, node: &RealLiteral) -> Result<Self::Value, Diagnostic> {
         let mut val = String::new();
         if let Some(data_type) = &node.data_type {
